@@ -321,6 +321,9 @@ def overlapping_disconnects(ctx: Ctx) -> None:
 
 
 def shard(ctx: Ctx) -> None:
+    from vf.sim import device as _device_fw  # noqa: PLC0415
+
+    _device_fw.ROTATE_FIRMWARE = True    # the firmware flavour of default devices rotates (hello without a name, API 1.2 / 1.8 / 1.12, deep sleep)
     short_reject_then_hangup(ctx)
     stalled_writer_bounds(ctx)
     overlapping_disconnects(ctx)
